@@ -147,6 +147,16 @@ var c03Patterns = []string{"*", "a*", "?", "dir/*", "[ab]"}
 
 func genC03(g *gen, c *sim.Case, tier string) {
 	r := g.r
+	if r.Chance(1, 5) {
+		// the same contract over time: short expiries and clock jumps, versions judged
+		genC06(g, c, tier)
+		if c.Mode == "exp" {
+			c.Mode = "seq"
+			c.Knobs["grace_ms"] = 2
+			return
+		}
+		c.Tasks, c.Faults = nil, nil
+	}
 	c.Mode = "seq"
 	c.Sched = sched(r, time.Second, 40000)
 	task := sim.Task{Name: "t0"}
@@ -293,7 +303,7 @@ func genC06(g *gen, c *sim.Case, tier string) {
 		case 1:
 			task.Ops = append(task.Ops, sim.Op{K: "getmany", S: strings.Join(pickKeys(r, keys), ",")})
 		case 2:
-			task.Ops = append(task.Ops, sim.Op{K: "cas", S: k, V: g.val(), N: 0})
+			task.Ops = append(task.Ops, sim.Op{K: "cas", S: k, V: g.val(), N: int64(sim.Pick(r, 0, 0, 1, 2))})
 		case 3:
 			task.Ops = append(task.Ops, sim.Op{K: "del", S: k})
 		case 4:
@@ -336,7 +346,11 @@ func genC07(g *gen, c *sim.Case, tier string) {
 			k := keys[r.Intn(len(keys))]
 			switch r.Intn(10) {
 			case 0, 1:
-				task.Ops = append(task.Ops, sim.Op{K: "put", S: k, V: g.val()})
+				v := g.val()
+				if r.Chance(1, 4) {
+					v = "="
+				}
+				task.Ops = append(task.Ops, sim.Op{K: "put", S: k, V: v})
 			case 2, 3:
 				ks := uniq(pickKeys(r, keys))
 				var vs []string
@@ -347,7 +361,11 @@ func genC07(g *gen, c *sim.Case, tier string) {
 				task.Ops = append(task.Ops, sim.Op{K: "putmany", S: strings.Join(ks, ","), V: strings.Join(vs, ","), F: r.Chance(1, 2)})
 			case 4, 5:
 				task.Ops = append(task.Ops, sim.Op{K: "get", S: k})
-				task.Ops = append(task.Ops, sim.Op{K: "cas", S: k, V: g.val(), N: 0})
+				v := g.val()
+				if r.Chance(1, 3) {
+					v = "=" // same value, new version (what a lease refresh does)
+				}
+				task.Ops = append(task.Ops, sim.Op{K: "cas", S: k, V: v, N: 0})
 			case 6:
 				task.Ops = append(task.Ops, sim.Op{K: "cas", S: k, V: g.val(), N: int64(sim.Pick(r, 1, 2))})
 			case 7:
